@@ -85,6 +85,14 @@ def check_delegate(ctx, cfg, key, method, alt, nargs):
               and fin.args[0] == its[0].ret and fin.args[1] == its[1].ret and all(r["val"] == fin.ret for r in a.returns))
         status = PROVED if ok else REFUTED
         why = "iterator form: operands must be the full views in parameter order"
+    elif method == "core::fmt::Debug::fmt" and sorted(names) == sorted(["core::fmt::Formatter::<'a>::debug_list", "core::slice::<impl [T]>::iter", "core::fmt::DebugList::<'a, 'b>::entries", "core::fmt::DebugList::<'a, 'b>::finish"]):
+        # the body of core's `impl Debug for [T]`, written out: f.debug_list().entries(self.iter()).finish()
+        by = {c.fn.split("::")[-1]: c for c in pc}
+        dl, it_, en, fi = by["debug_list"], by["iter"], by["entries"], by["finish"]
+        ok = (dl.args[0][0] == "P" and dl.args[0][1] == ("arg", 2) and not dl.args[0][2].t and is_full_view(it_.args[0], ("arg", 1), n)
+              and en.args[1] == it_.ret and a.dominates(dl.bb, en.bb) and a.dominates(en.bb, fi.bb) and all(r["val"] == fi.ret for r in a.returns))
+        status = PROVED if ok else REFUTED
+        why = "debug_list().entries(iter over the full view of self).finish() - the body of core's Debug for [T]"
     else:
         # a different delegate (e.g. hash_slice, a manual loop, reversed iteration): not provably the slice impl
         status = REFUTED if any(c.fn == method for c in pc) else UNKNOWN
